@@ -116,6 +116,65 @@ def search_pin(ctx, mods):
     ctx.cov["pinned_items_compared"] = n
 
 
+def search_effective_layout(ctx):
+    """the EFFECTIVE layout (which bits of the block an item's read really depends on) against the PINNED layout: for every
+    item of every pinned module the real accessor's raw read on three probe blocks - every bit set, only the pinned field's
+    bits set, every bit but those - must be the all-ones of the pinned field, the same, and zero. Public attributes alone
+    (what the pin diff compares) do not settle this: the read path may derive its mask / shift otherwise."""
+    import importlib
+    import struct as pystruct
+    pin = {p["file"]: p for p in packs.load_pin(PIN)}
+    n = 0
+
+    class S:
+        status_block = bytes(1024)
+        accessors = {}
+    for f, p in pin.items():
+        if not p.get("items"):
+            continue
+        try:
+            m = importlib.import_module("geckolib.driver.packs." + f)
+            st = S()
+            o = (getattr(m, "GeckoConfigStruct", None) or getattr(m, "GeckoLogStruct"))(st)
+        except Exception:  # noqa  (reported by the pin diff / import search)
+            continue
+        for it in p["items"]:
+            a = o.accessors.get(it["key"])
+            if a is None or it["pos"] + it["len"] > 1024:
+                continue
+            width = 8 * it["len"]
+            if it["bitpos"] is not None:
+                fieldmask = (it["mask"] or 1) << it["bitpos"]
+                want = it["mask"] or 1
+            else:
+                fieldmask = (1 << width) - 1
+                want = fieldmask
+            probes = []
+            ones = b"\xff" * 1024
+            only = bytearray(1024)
+            only[it["pos"]:it["pos"] + it["len"]] = fieldmask.to_bytes(it["len"], "big")
+            rest = bytearray(ones)
+            rest[it["pos"]:it["pos"] + it["len"]] = (((1 << width) - 1) ^ fieldmask).to_bytes(it["len"], "big")
+            got = []
+            for blk in (ones, bytes(only), bytes(rest)):
+                st.status_block = blk
+                try:
+                    v = a.raw_value
+                    if v < 0 and it["kind"] not in ("byte", "word"):
+                        v += 1 << width
+                    got.append(v)
+                except Exception as e:  # noqa
+                    got.append(f"raised {type(e).__name__}")
+            n += 1
+            exp = [want, want, 0]
+            # signed word formats read all-ones as -1: compare modulo the field width
+            norm = [(g % (1 << width)) if isinstance(g, int) and it["bitpos"] is None else g for g in got]
+            if norm != exp:
+                ctx.violation(f"effective-layout:{f}:{it['key']}", {"module": f, "tag": it["key"], "probe": "ones / field-only / all-but-field"},
+                              f"raw reads {exp} (pinned pos {it['pos']} len {it['len']} bitpos {it['bitpos']} mask {it['mask']})", got)
+    ctx.cov["effective_layout_items_probed"] = n
+
+
 def search_files_reply(ctx, mods, names):
     """the module a client would import after the spa's FILES reply exists: real encoder -> real decoder -> naming rule"""
     from geckolib.driver.protocol.configfile import GeckoConfigFileProtocolHandler
@@ -156,6 +215,7 @@ def run(ctx):
         return
     names = search(ctx, mods)
     search_pin(ctx, mods)
+    search_effective_layout(ctx)
     n = search_files_reply(ctx, mods, names)
     # the kernel evaluated one obligation per module (+ one pin equality per pinned module) on top of the property theorems
     per_module = len([m for m in mods if m["kind"] in ("cfg", "log", "pack")]) + len(packs.load_pin(PIN))
@@ -179,6 +239,7 @@ def replay(inp):
     mods = packs.load_tables()
     names = search(ctx, mods)
     search_pin(ctx, mods)
+    search_effective_layout(ctx)
     search_files_reply(ctx, mods, names)
     for v in ctx.violations:
         if v["input"] == inp:
